@@ -3,6 +3,8 @@
 package main
 
 import (
+	"strings"
+	"bytes"
 	"context"
 	"crypto"
 	"crypto/tls"
@@ -92,6 +94,8 @@ type pki struct {
 	clientLeaf               *x509.Certificate
 	ClientCertFile, ClientKeyFile string
 	CA1File, CA2File, BothFile, ForeignFile string
+	// the same CA certificates in other legal file layouts
+	CA1NoNLFile, PadCA1NoNLFile, BothCRLFFile string
 }
 
 func pemFile(path, typ string, der []byte) {
@@ -117,6 +121,18 @@ func newPKI() *pki {
 	pemFile(p.CA2File, "CERTIFICATE", p.ca2.Raw)
 	pemFile(p.ForeignFile, "CERTIFICATE", p.foreign.Raw)
 	os.WriteFile(p.BothFile, append(pem.EncodeToMemory(&pem.Block{Type: "CERTIFICATE", Bytes: p.ca1.Raw}), pem.EncodeToMemory(&pem.Block{Type: "CERTIFICATE", Bytes: p.ca2.Raw})...), 0o600)
+	{
+		// layouts: no newline after the last END line; an unrelated CA in front; CRLF line ends with text between blocks
+		pem1 := pem.EncodeToMemory(&pem.Block{Type: "CERTIFICATE", Bytes: p.ca1.Raw})
+		pem2 := pem.EncodeToMemory(&pem.Block{Type: "CERTIFICATE", Bytes: p.ca2.Raw})
+		pad := mkca("unrelated CA kept in the bundle", 9, fix.Ed(3))
+		padPEM := pem.EncodeToMemory(&pem.Block{Type: "CERTIFICATE", Bytes: pad.Raw})
+		p.CA1NoNLFile, p.PadCA1NoNLFile, p.BothCRLFFile = filepath.Join(d, "ca1-nonl.pem"), filepath.Join(d, "pad-ca1-nonl.pem"), filepath.Join(d, "both-crlf.pem")
+		os.WriteFile(p.CA1NoNLFile, bytes.TrimRight(pem1, "\n"), 0o600)
+		os.WriteFile(p.PadCA1NoNLFile, bytes.TrimRight(append(append([]byte{}, padPEM...), pem1...), "\n"), 0o600)
+		crlf := "# CA bundle\r\nsubject=verif CA one\r\n" + strings.ReplaceAll(string(pem1), "\n", "\r\n") + "\r\nBag Attributes: none\r\n" + strings.ReplaceAll(string(pem2), "\n", "\r\n")
+		os.WriteFile(p.BothCRLFFile, []byte(crlf), 0o600)
+	}
 	// client certificate
 	ck := fix.EC(256)
 	ct := fix.X509Template("ysshra client", 10, now.Add(-time.Hour), now.Add(y), false)
